@@ -508,4 +508,70 @@ impl SessionEngine {
       old='''        let idx = self.index_of_seq(seq)?;
         self.frames.get(idx)''', new='''        let idx = self.index_of_seq(seq)?;
         Some(self.frames.get(idx).unwrap())'''),
+ # ------------------------------------------------------------------ defects repaired in the sixth session, re-introduced
+ dict(id='c01-reinput-no-claim', prop='C01', rule='C01.10', file='crates/ripd/src/runner.rs', what='F-C01-reinput again: spawn_session starts the run without claiming the handle',
+      old="""        if !handle.claim_run() {
+            return false;
+        }
+""", new="""        let _ = handle.claim_run();
+"""),
+ dict(id='c01-recreate-default', prop='C01', rule='C01.11', file=C, what='ensure_default re-creates the indexed default thread under its existing id',
+      old="""            .get(&workspace)
+            .cloned()
+        {
+            return Ok(existing);
+        }
+""", new="""            .get(&workspace)
+            .cloned()
+        {
+            if self.stream_cache.try_read_last_seq(&existing).ok().flatten().is_some() {
+                return Ok(existing);
+            }
+            return self.create_continuity(workspace, Some(existing), None, true, None);
+        }
+"""),
+ dict(id='c04-headseq-default', prop='C04', rule='C04.13', file=SC, what='F-C04-headseq again (cache side): the window head falls back to the anchor',
+      old="""        let Some(head_seq) = self.try_read_last_seq(continuity_id).ok().flatten() else {
+            return Ok(None);
+        };
+""", new="""        let head_seq = self
+            .try_read_last_seq(continuity_id)
+            .ok()
+            .flatten()
+            .unwrap_or(anchor_seq);
+"""),
+ dict(id='c05-rebuild-in-place', prop='C05', rule='C05.3', file=SC, what='F-C05-rebuild again: the full sidecar is rebuilt under its real name',
+      old="""        let tmp_path = path.with_extension("jsonl.tmp");
+        let Ok(file) = File::create(&tmp_path) else {
+            return;
+        };
+        let mut writer = BufWriter::new(file);
+        let mut offset: u64 = 0;
+        let mut index_builder = SidecarIndexBuilderV1::new();""",
+      new="""        let tmp_path = path.with_extension("jsonl.tmp");
+        let Ok(file) = File::create(&path) else {
+            return;
+        };
+        let mut writer = BufWriter::new(file);
+        let mut offset: u64 = 0;
+        let mut index_builder = SidecarIndexBuilderV1::new();""",
+      also=[dict(old="""        drop(writer);
+        if fs::rename(&tmp_path, &path).is_err() {
+            let _ = fs::remove_file(&tmp_path);
+            return;
+        }
+""", new="""        drop(writer);
+        let _ = &tmp_path;
+""")]),
+ dict(id='c11-child-outlives-call', prop='C11', rule='C11.8', file='crates/rip-tools/src/builtins/shell.rs', what='F-C11-timeout again: the shell child is not tied to the handler future',
+      old="""    cmd.kill_on_drop(true);
+""", new="""    cmd.kill_on_drop(false);
+"""),
+ dict(id='c13-write-root-sibling', prop='C13', rule='C13.7', file='crates/rip-tools/src/builtins/write.rs', what='F-C13-write-root again: the temporary is derived from the resolved path without excluding the root',
+      old="""    if path == config.workspace_root {
+        return ToolOutput::failure(vec![
+            "write failed: path names the workspace root".to_string()
+        ]);
+    }
+""", new=""""""),
 ]
